@@ -176,6 +176,14 @@ func (w *world) onHook(i int, point, subject string) {
 		hr.log.rec(Ev{K: "hook", Op: "prerun", Task: tr.idx, By: startedBy()})
 	case hkPrelock:
 		hr.log.rec(Ev{K: "hook", Op: "prelock", Task: tr.idx})
+	case hkDefer:
+		// Give the goroutine that releases the queue slot (started right after the
+		// execution goroutine) a moment to pick up the task's context before the
+		// deferred reset replaces it. Without this, executions that return at once
+		// frequently end in the legitimate but slow 60 s queue stall (DESIGN C07
+		// limits). Pacing only; the stalled interleaving still occurs and is handled
+		// by the supervisor in quiesce.
+		time.Sleep(150 * time.Microsecond)
 	}
 	// explicit ordering plan?
 	hr.pmu.Lock()
@@ -401,8 +409,10 @@ func (hr *histRun) unstall(round int) {
 		if tr.runs.Load() == 0 {
 			continue
 		}
-		ex, ca, qd, pr, sc := tr.t.VerifTaskState()
-		if ca || ex {
+		// (an already cancelled task is cancelled again: Cancel always cancels the
+		// task's current context, which is what a stale slot releaser waits on)
+		ex, _, qd, pr, sc := tr.t.VerifTaskState()
+		if ex {
 			continue
 		}
 		if round == 1 && (qd || pr || sc) {
@@ -534,6 +544,10 @@ func (hr *histRun) runLong() bool {
 	if !hr.waitBegin(0, 1) {
 		return false
 	}
+	// a long max delay keeps the overdue path (default: also 60 s) out of the picture:
+	// only the execution-wait limit can let the next queued task start
+	hr.do("c0", 0, Op{Kind: opMaxDelay, Task: 1, DelayMs: 600000})
+	hr.do("c0", 0, Op{Kind: opMaxDelay, Task: 2, DelayMs: 600000})
 	hr.do("c0", 0, Op{Kind: opQueue, Task: 1})
 	hr.do("c0", 0, Op{Kind: opQueueP, Task: 2})
 	return hr.quiesce(200*time.Second, false)
@@ -594,9 +608,17 @@ func (hr *histRun) runPlan(limit time.Duration) bool {
 		}
 		close(p.release)
 	case "stale-timer":
-		hr.do(c, 0, Op{Kind: opMaxDelay, Task: T, DelayMs: md})
-		hr.do(c, 0, Op{Kind: opSchedule, Task: U, OffMs: off})
-		hr.do(c, 0, Op{Kind: opQueue, Task: T})
+		// T waits a moment behind V (so the schedule handler arms its timer for T's
+		// max-delay entry), then runs via the queue long before the max delay
+		hr.tasks[V].block = make(chan struct{})
+		hr.do(c, 0, Op{Kind: opQueue, Task: V})
+		if hr.waitBegin(V, 1) {
+			hr.do(c, 0, Op{Kind: opMaxDelay, Task: T, DelayMs: md})
+			hr.do(c, 0, Op{Kind: opSchedule, Task: U, OffMs: off})
+			hr.do(c, 0, Op{Kind: opQueue, Task: T})
+			time.Sleep(3 * time.Millisecond) // workload pacing only
+		}
+		close(hr.tasks[V].block)
 	case "requeue-running":
 		hr.tasks[T].spec.RunUs = []int{md * 3000, 1000}
 		hr.do(c, 0, Op{Kind: opMaxDelay, Task: T, DelayMs: md})
